@@ -52,6 +52,12 @@ def _hs_cfg(path, impl, quick=True):
                 "INVARIANTS UsesCurrent PrefixOK\nCHECK_DEADLOCK FALSE\n" % ("1, 2", "" if quick else ", 3", impl))
 
 
+def _dh_cfg(path, impl):
+    with open(path, "w") as f:
+        f.write("SPECIFICATION Spec\nCONSTANTS\n  Objs = {1, 2}\n  Pars = {1, 2}\n  Doms = {1, 2}\n  Impl = \"%s\"\n"
+                "INVARIANT DrawCurrent\nPROPERTY CopyIndependent\nCONSTRAINT HeapBound\nCHECK_DEADLOCK FALSE\n" % impl)
+
+
 def _sig(rj):
     ev = rj.event or {}
     act = ev.get("e")
@@ -71,6 +77,8 @@ def _module_for(path):
         for ln in f:
             if '"e":"Call"' in ln:
                 return "SamplingTrace"
+            if '"e":"Draw"' in ln or '"e":"SetPar"' in ln:
+                return "DistHistoryTrace"
             if '"e":"Sample"' in ln:
                 return "HmmSampleTrace"
             if '"e":"Pair"' in ln or '"e":"Inv"' in ln or '"e":"RandC"' in ln:
@@ -186,6 +194,14 @@ def _selftest_cases():
            {"e": "CopyTo", "o": 0, "o2": 1, "how": "assign"},
            {"e": "Sample", "o": 1, "n": 2, "seed": 7, "out": [1, 1], "lo": [1, 1], "hi": [1, 1], "wpos": [True, True]}]
     cases.append(("hmm-assign-good", "HmmSampleTrace", cpy, True))
+    dh = [{"e": "Reset"}, {"e": "New", "o": 0, "cls": "gauss", "r": "ok"},
+          {"e": "SetPar", "o": 0, "how": "setParameterValue", "r": "ok"},
+          {"e": "CopyTo", "o": 0, "o2": 1, "how": "clone"}, {"e": "Restrict", "o": 1, "r": "ok"},
+          {"e": "Draw", "o": 0, "seed": 3, "sameC": True, "sameD": True, "domC": True, "domD": True}]
+    cases.append(("dist-good", "DistHistoryTrace", dh, True))
+    bad = cp(dh)
+    bad[5]["sameC"] = False                         # the draws are not those of a fresh object with the current state
+    cases.append(("dist-draw-not-current", "DistHistoryTrace", bad, False))
     bad = cp(cpy)
     del bad[5]                                      # without the assignment the two samples are in one epoch: not prefixes
     cases.append(("hmm-assign-dropped", "HmmSampleTrace", bad, False))
@@ -232,6 +248,14 @@ def run(tier, seed):
         cfg = os.path.join(wd, "sl-%s.cfg" % impl)
         _sl_cfg(cfg, impl)
         jobs.append(("control2", impl, "", (lambda cfg=cfg: vc.tlc(SPEC, "ScaleLaw", cfg, workers=1, timeout=900, extra=("-noGenerateSpecTE",)))))
+    cfg = os.path.join(wd, "dh-ok.cfg")
+    _dh_cfg(cfg, "ok")
+    jobs.append(("model", "DistHistory/ok", "Objs={1,2} Pars={1,2} Doms={1,2} <=4 interval objects, Impl=ok",
+                 (lambda cfg=cfg: vc.model_check(SPEC, "DistHistory", cfg, workers=3, coverage=True, timeout=1800, heap="4g"))))
+    for impl in ("staleSampler", "sharedDomain"):
+        cfg = os.path.join(wd, "dh-%s.cfg" % impl)
+        _dh_cfg(cfg, impl)
+        jobs.append(("control4", impl, "", (lambda cfg=cfg: vc.tlc(SPEC, "DistHistory", cfg, workers=1, timeout=900, extra=("-noGenerateSpecTE",)))))
     cfg = os.path.join(wd, "hs-refresh.cfg")
     _hs_cfg(cfg, "refresh", quick)
     jobs.append(("model", "HmmSample/refresh", "Objs={1,2} Cfgs=1..%d Seeds={1} Lens={1,2} kinds full/auto, copy/assign, Impl=refresh" % (2 if quick else 3),
@@ -257,6 +281,10 @@ def run(tier, seed):
             if r.invariant != "IndexSafe":
                 raise vc.MachineryError("negative control: Rcont2 with StartRule=cast should violate IndexSafe, got %s\n%s" % (r.invariant, r.out[-2000:]))
             ck.extra["negative_control"] = "Rcont2 with the mis-parenthesised start value (StartRule=cast, MaxTot=3): TLC reports IndexSafe violated, as expected"
+        elif kind == "control4":
+            if r.invariant not in ("DrawCurrent", "CopyIndependent"):
+                raise vc.MachineryError("negative control: DistHistory with Impl=%s should violate DrawCurrent/CopyIndependent, got %s\n%s" % (name, r.invariant, r.out[-2000:]))
+            ck.extra["negative_control_dist_" + name] = "DistHistory with Impl=%s: TLC reports %s violated, as expected" % (name, r.invariant)
         elif kind == "control3":
             if r.invariant != "UsesCurrent":
                 raise vc.MachineryError("negative control: HmmSample with Impl=%s should violate UsesCurrent, got %s\n%s" % (name, r.invariant, r.out[-2000:]))
@@ -284,11 +312,12 @@ def run(tier, seed):
              ("sampling-exh", ["--mode", "sampling-exh", "--seeds", 16], "SamplingTrace"),
              ("sampling-rand", ["--mode", "sampling-rand", "--n", 300 if quick else 4000], "SamplingTrace"),
              ("laws", ["--mode", "laws", "--seeds", 16], "ScaleLawTrace"),
-             ("hmm", ["--mode", "hmm", "--n", 600 if quick else 6000], "HmmSampleTrace")]
+             ("hmm", ["--mode", "hmm", "--n", 600 if quick else 6000], "HmmSampleTrace"),
+             ("dist", ["--mode", "dist", "--n", 500 if quick else 5000], "DistHistoryTrace")]
     for name, args, module in runs:
         tr = os.path.join(wd, "trace-%s.ndjson" % name)
         s = vc.run_driver(exe, args, tr, timeout=3000)
-        _validate(ck, tr, module, sample=2 if name in ("tables-rand", "sampling-rand", "laws", "hmm") else 0)
+        _validate(ck, tr, module, sample=2 if name in ("tables-rand", "sampling-rand", "laws", "hmm", "dist") else 0)
         vc.log("C18: %s: %s scenarios, %s events validated at %.0fs" % (name, s.get("scenarios"), s.get("events"), time.time() - ck.t0))
         ck.extra["scenarios_" + name] = s.get("scenarios", 0)
         os.remove(tr)
@@ -302,7 +331,9 @@ def run(tier, seed):
                "inverse-cdf picks with the rank of the uniform, randC domain + quantile round trip; hidden-state paths: random histories "
                "(mutations, getters, copy construction / assignment between two objects, sample(1..5) under 3 seeds per history) on "
                "Full/AutoCorrelation matrices with 1..4 states; restricted distributions (6 classes): accepted draw = first in-domain "
-               "element of the unrestricted twin's stream under the same seed; non-trivial = scenario with at least one draw"
+               "element of the unrestricted twin's stream under the same seed; distribution histories (5 classes): build / set a parameter "
+               "through 3 entry points / restrict / clone / assign on two objects, every draw (randC and rand) compared with a reference "
+               "object built afresh from the current parameters and restriction; non-trivial = scenario with at least one draw"
                % (("6 x 16 seeds", 3) if quick else ("10 x 16 seeds, 11..12 x 4 seeds", 4)))
     ck.distinct = ck.traces
     ck.assumptions = ["TLC 1.8.0; CommunityModules Json",
